@@ -54,6 +54,17 @@ def _gen_texts(ctx, quick):
             t = codecs.decode(line.encode("latin-1", "backslashreplace"), "unicode_escape")
             g.write(json.dumps({"text": [ord(c) for c in t]}) + "\n")
             n += 1
+        # long and deep texts: what is small in a grammar file can be deep for the parser of grammar files (one level per
+        # escape in a string, per parenthesis, per nested comment)
+        for t in ['a = { "' + "\\n" * 300 + '" }', 'a = { "' + "\\u{41}\\x41\\\\" * 120 + '" }',
+                  "a = { " + "(" * 30 + "b" + ")" * 30 + " }", "/* " * 260 + "*/ " * 260 + "a = { b }",
+                  "a = { " + " ~ ".join(["b?"] * 200) + " }", "a = { " + " | ".join(['"x"'] * 200) + " }", "a = { " + "!" * 150 + "b }"]:
+            g.write(json.dumps({"text": [ord(c) for c in t], "long": True}) + "\n")
+            n += 1
+            # ... and the piece inside the braces alone (the sub-rules see it from its first character)
+            if t.startswith("a = { ") and t.endswith(" }"):
+                g.write(json.dumps({"text": [ord(c) for c in t[6:-2]], "long": True}) + "\n")
+                n += 1
         # pieces of the repository's own grammars (whole short rules)
         import glob
         for path in sorted(glob.glob(os.path.join(REPO, "*", "**", "*.pest"), recursive=True)):
